@@ -44,6 +44,10 @@ LITERALS = {
     "hash": '"# not a comment"',
     "equals": '"a = b"',
     "two_quoted_runs": '"x = \'y\' \'z\'"',
+    "double_space": '"Ada  Lovelace"',
+    "space_runs_and_edges": '"  a   b  "',
+    "no_break_space": '"10\u00a0km"',
+    "raw_tab": '"a\tb"'.replace("\\t", "\t"),
     "triple_quote_escaped": '"\\"\\"\\""',
     "unicode_bmp": '"café ☃"',
     "unicode_astral": '"smile \U0001F600"',
